@@ -64,6 +64,7 @@ def parseOp (line : String) : Option Op :=
   | ["dist", "bogus"] => some .setDistBogus
   | ["enter", "rel"] => some (.enterCtx true) | ["enter", "abs"] => some (.enterCtx false)
   | ["exit"] => some .exitCtx
+  | ["exitraise"] => some .exitCtx     -- leaving because the body raised: the managers restore in a `finally`
   | ["feed", v] => (parseVal v).map .feed
   | ["power", v] => (parseVal v).map .power
   | ["toolon", m, v] => do
